@@ -409,6 +409,30 @@ class C06(object):
             r.oracle_fail = 'KL(rvs=%s, crvs=%s) = %r, definition gives %r' % (rvs, crvs, gk, refkl)
         elif gk < -1e-9:
             r.oracle_fail = 'conditional KL negative: %r' % gk
+        # "restricted to rvs" means: of the marginals on rvs - for the whole generalised family and every order
+        if not r.oracle_fail and not crvs:
+            srt = sorted(rvs)
+            try:
+                ma_, mb_ = da.marginal(srt), db.marginal(srt)
+            except Exception:
+                ma_ = None
+            if ma_ is not None:
+                for name in ('alpha_divergence', 'renyi_divergence', 'tsallis_divergence', 'hellinger_divergence', 'hellinger_sum'):
+                    f = getattr(D, name)
+                    for al in (-1, 0.5, 1, 2, 3):
+                        if name != 'alpha_divergence' and al <= 0:
+                            continue
+                        try:
+                            v1 = float(f(da, db, al, rvs=rvs))
+                            v2 = float(f(ma_, mb_, al))
+                        except Exception as e:  # noqa
+                            r.oracle_fail = '%s(alpha=%s, rvs=%s) raised %s' % (name, al, rvs, type(e).__name__)
+                            break
+                        if not (self.agree(v1, v2, 1e-9) or (math.isnan(v1) and math.isnan(v2))):
+                            r.oracle_fail = '%s(alpha=%s, rvs=%s) = %r, but %r on the marginals themselves' % (name, al, rvs, v1, v2)
+                            break
+                    if r.oracle_fail:
+                        break
         # model: marginal alignment through the driver
         if not crvs:
             ma, mb = marg(ta, both), marg(tb, both)
@@ -436,6 +460,18 @@ class C06(object):
         r.features.append('style=%s' % case['style'])
         r.nontrivial = nx >= 2 and ny >= 2
         rho = float(maximum_correlation(d, [[0], [1]]))
+        # the same joint with symbols of a different type for each variable (integers for X, strings for Y): alphabets of
+        # different variables need not be comparable with one another
+        houts = [(i_, 'abcdefghij'[j_]) for i_ in range(nx) for j_ in range(ny) if P[i_][j_] > 0 or case['dense']]
+        hd = dit.Distribution(houts, pmf, trim=False, **({'sample_space': list(houts)} if case['explicit'] else {}))
+        try:
+            rho_h = float(maximum_correlation(hd, [[0], [1]]))
+            if abs(rho_h - rho) > 1e-8:
+                r.oracle_fail = 'maximum correlation %r, but %r when Y is labelled by strings and X by integers' % (rho, rho_h)
+                return
+        except Exception as e:  # noqa
+            r.oracle_fail = 'maximum correlation raised %s when Y is labelled by strings and X by integers' % type(e).__name__
+            return
         # drop empty rows / columns for the model
         rows = [i for i in range(nx) if sum(P[i]) > 0]
         cols = [j for j in range(ny) if sum(P[i][j] for i in range(nx)) > 0]
